@@ -67,17 +67,18 @@ type Filter interface {
 }
 
 type pipe struct {
-	inflight []segment
-	rx       []byte
-	wclosed  bool
-	reset    bool
-	lastAt   time.Time
-	Sent     []byte // wiretap: what the writer wrote
-	Wire     []byte // wiretap: what actually travelled (after the filter)
-	tap      bool
-	filter   Filter
-	nWritten int64
-	nRead    int64
+	inflight    []segment
+	rx          []byte
+	wclosed     bool
+	cutByFilter bool
+	reset       bool
+	lastAt      time.Time
+	Sent        []byte // wiretap: what the writer wrote
+	Wire        []byte // wiretap: what actually travelled (after the filter)
+	tap         bool
+	filter      Filter
+	nWritten    int64
+	nRead       int64
 }
 
 func (p *pipe) buffered() int {
@@ -394,6 +395,10 @@ func (e *Endpoint) Write(p []byte) (int, error) {
 			return done, opErr("write", syscall.ECONNRESET)
 		}
 		if e.out.wclosed || e.peer.closed {
+			if e.out.cutByFilter && e.out.tap {
+				// the on-path filter cut the stream: what the writer tried to send still counts as sent
+				e.out.Sent = append(e.out.Sent, p[done:]...)
+			}
 			e.n.mu.Unlock()
 			return done, opErr("write", syscall.EPIPE)
 		}
@@ -467,6 +472,7 @@ func (e *Endpoint) deliver(b []byte) {
 	}
 	if closeAfter {
 		o.wclosed = true
+		o.cutByFilter = true
 	}
 }
 
